@@ -95,8 +95,9 @@ fn seq_line(seq: &[usize]) -> String {
     parse_line(text.as_bytes(), "-", &exp.join(" "))
 }
 
-const ALIASES: [&str; 30] = ["*", "+", "!", "not", "and", "or", "xor", "implies", "in", "iff", "eq", "any", "all",
-    "nu", "mu", "a'", "_x", "x_1", "1x", "007", "{a'b}", "{}", "{ }", "\"c\"", "\"", "$", "é", "٣", "x٣", "𝒳"];
+const ALIASES: [&str; 37] = ["*", "+", "!", "not", "and", "or", "xor", "implies", "in", "iff", "eq", "any", "all",
+    "nu", "mu", "a'", "_x", "x_1", "1x", "007", "{a'b}", "{}", "{ }", "\"c\"", "\"", "$", "é", "٣", "x٣", "𝒳",
+    "'a", "''", "'", "{'x}", "'1", "{1}", "a'b'"];
 
 fn soup(rng: &mut Rng, len: usize) -> String {
     let mut s = String::new();
